@@ -9,6 +9,12 @@
 //!                            [4,m,base,sz]  maps[m].remove_region(base,sz)      (1 map slot)
 //!                            [5,m,a]        maps[m].find_region(a)
 //!                            [6]            GuestMemoryMmap::new()              (1 map slot)
+//!                            [7,f,base,size] GuestRegionMmap::from_range(base, size, file f)  (1 region slot)
+//!                            [9,s,l,f,...]  from_ranges_with_files([(s,l,file f)])  (k region slots, 1 map slot)
+//!        file f: 0 none, 1 a memfd of `size` bytes mapped from offset 0, 2 a memfd of 65536+size bytes mapped
+//!        from offset 65536 (sizes above 16 MiB: no file).  Opcode 0 is the spelled-out route (MmapRegion::new resp.
+//!        MmapRegion::from_range(MmapRange::new_unix) followed by GuestRegionMmap::new); 2 is from_ranges.
+//!        This file is compiled in the standard AND in the Xen build (C10 runs `debug` and `xen-debug`).
 //! obs:   one list per op: [code, intact, (id,start,len)*]
 //!        code 0 Ok, 1 InvalidGuestRegion, 2 MmapRegion(_), 3 NoMemoryRegion, 4 MemoryRegionOverlap,
 //!        5 UnsortedMemoryRegions, 8 operand slot dead/absent, 9 panic.
@@ -68,7 +74,31 @@ fn new_region(base: u64, size: u64) -> Result<R, Error> {
 }
 #[cfg(feature = "xen")]
 fn new_region(base: u64, size: u64) -> Result<R, Error> {
-    GuestRegionMmap::from_range(GuestAddress(base), size as usize, None)
+    // the two steps of the Xen build's GuestRegionMmap::from_range, spelled out
+    let range = vm_memory::MmapRange::new_unix(size as usize, None, GuestAddress(base));
+    let mapping = vm_memory::MmapRegion::<()>::from_range(range).map_err(Error::MmapRegion)?;
+    GuestRegionMmap::new(mapping, GuestAddress(base))
+}
+
+/// the backing file of a constructor route with file tag f (see the header), None = no file
+fn file_of_tag(f: u64, size: u64) -> Option<vm_memory::FileOffset> {
+    use std::os::unix::io::FromRawFd;
+    assert!(f < 3);
+    if f == 0 || size > (1 << 24) {
+        return None;
+    }
+    let start = if f == 2 { 65536u64 } else { 0 };
+    // SAFETY: plain syscalls; the descriptor is owned by the File
+    unsafe {
+        let fd = libc::memfd_create(b"vmh-c10\0".as_ptr() as *const libc::c_char, 0);
+        assert!(fd >= 0, "memfd_create");
+        assert!(libc::ftruncate(fd, (start + size) as libc::off_t) == 0, "ftruncate");
+        Some(vm_memory::FileOffset::new(std::fs::File::from_raw_fd(fd), start))
+    }
+}
+/// the public one-call route, the same function name in both build flavours
+fn new_region_via(f: u64, base: u64, size: u64) -> Result<R, Error> {
+    GuestRegionMmap::from_range(GuestAddress(base), size as usize, file_of_tag(f, size))
 }
 
 impl World {
@@ -205,11 +235,21 @@ fn exec(case: &[Tok]) -> Vec<Tok> {
         w.step = i as u64;
         let a: Vec<u64> = op.l().iter().map(|x| *x as u64).collect();
         let (c, regs, good): (u64, Vec<u128>, bool) = match a[0] {
-            0 => {
-                assert!(a.len() == 3);
-                match util::catch(|| new_region(a[1], a[2])) {
+            0 | 7 => {
+                let (f, base, size) = if a[0] == 0 {
+                    assert!(a.len() == 3);
+                    (None, a[1], a[2])
+                } else {
+                    assert!(a.len() == 4 && a[1] < 3);
+                    (Some(a[1]), a[2], a[3])
+                };
+                let made = util::catch(|| match f {
+                    None => new_region(base, size),
+                    Some(f) => new_region_via(f, base, size),
+                });
+                match made {
                     Some(Ok(r)) => {
-                        w.register(Arc::new(r), a[1], a[2]);
+                        w.register(Arc::new(r), base, size);
                         (0, vec![], true)
                     }
                     Some(Err(e)) => {
@@ -238,12 +278,23 @@ fn exec(case: &[Tok]) -> Vec<Tok> {
                     }
                 }
             }
-            2 => {
-                assert!(a.len() % 2 == 1);
+            2 | 9 => {
+                let with_files = a[0] == 9;
+                let step = if with_files { 3 } else { 2 };
+                assert!((a.len() - 1) % step == 0);
                 let ranges: Vec<(GuestAddress, usize)> =
-                    a[1..].chunks(2).map(|c| (GuestAddress(c[0]), c[1] as usize)).collect();
+                    a[1..].chunks(step).map(|c| (GuestAddress(c[0]), c[1] as usize)).collect();
                 let k = ranges.len();
-                match util::catch(|| M::from_ranges(&ranges)) {
+                let built = if with_files {
+                    let rf: Vec<(GuestAddress, usize, Option<vm_memory::FileOffset>)> = a[1..]
+                        .chunks(3)
+                        .map(|c| (GuestAddress(c[0]), c[1] as usize, file_of_tag(c[2], c[1])))
+                        .collect();
+                    util::catch(|| M::from_ranges_with_files(rf))
+                } else {
+                    util::catch(|| M::from_ranges(&ranges))
+                };
+                match built {
                     Some(Ok(m)) => {
                         // the map owns the only Arcs: take an extra strong reference to each region
                         // (the regions live in Arcs created by from_regions) to get handles
@@ -354,10 +405,16 @@ struct G {
     ops: Vec<Tok>,
     pool: Vec<Option<(u64, u64)>>,       // predicted live handles (steering only)
     maps: Vec<Option<Vec<usize>>>,       // predicted maps as handle lists (steering only)
+    ctr: u64,                            // spreads creations over the constructor routes
 }
 impl G {
     fn new() -> G {
-        G { ops: Vec::new(), pool: Vec::new(), maps: Vec::new() }
+        G { ops: Vec::new(), pool: Vec::new(), maps: Vec::new(), ctr: 0 }
+    }
+    /// next route selector: a deterministic function of what was emitted so far in this history
+    fn pick(&mut self, salt: u64) -> u64 {
+        self.ctr = self.ctr.wrapping_mul(6364136223846793005).wrapping_add(salt ^ 0x9E37_79B9_7F4A_7C15);
+        (self.ctr >> 33) % 8
     }
     fn op(&mut self, v: Vec<u64>) {
         self.ops.push(Tok::of_u64s(&v));
@@ -366,7 +423,18 @@ impl G {
         l > 0 && s.checked_add(l).is_some()
     }
     fn new_region(&mut self, s: u64, l: u64) -> usize {
-        self.op(vec![0, s, l]);
+        // a share of the creations goes through the public one-call route, with and without a backing file
+        match self.pick(s ^ l.rotate_left(17)) {
+            0..=2 => self.op(vec![0, s, l]),
+            3 | 4 => self.op(vec![7, 0, s, l]),
+            5 | 6 => self.op(vec![7, 1, s, l]),
+            _ => self.op(vec![7, 2, s, l]),
+        }
+        self.pool.push(if Self::fits(s, l) { Some((s, l)) } else { None });
+        self.pool.len() - 1
+    }
+    fn new_region_via(&mut self, f: u64, s: u64, l: u64) -> usize {
+        self.op(vec![7, f, s, l]);
         self.pool.push(if Self::fits(s, l) { Some((s, l)) } else { None });
         self.pool.len() - 1
     }
@@ -397,10 +465,15 @@ impl G {
         self.maps.push(if ok { Some(ids.to_vec()) } else { None });
     }
     fn from_ranges(&mut self, rs: &[(u64, u64)]) {
-        let mut v = vec![2u64];
-        for (s, l) in rs {
+        let sel = self.pick(rs.len() as u64);
+        let mut v = vec![if sel < 4 { 2u64 } else { 9 }];
+        for (i, (s, l)) in rs.iter().enumerate() {
             v.push(*s);
             v.push(*l);
+            if sel >= 4 {
+                // from_ranges_with_files: no file / file at 0 / file at 65536, varying along the list
+                v.push((sel + i as u64) % 3);
+            }
         }
         self.op(v);
         let first = self.pool.len();
@@ -684,6 +757,55 @@ fn gen(rng: &mut Rng, tier: Tier, emit: &mut dyn FnMut(Vec<Tok>)) {
             }
         }
         g.emit(emit);
+        // every constructor route at the border base + size = 2^64 (+-1 and further), byte-sized and page-sized,
+        // as a single creation and as the last / the first range of a list
+        for f in 0..4u64 {
+            for l in [0u64, 1, 2, 3, 4096, 8192, 65536, 4097] {
+                let mut g = G::new();
+                for d in [-2i64, -1, 0, 1, 2, 5] {
+                    let s = 0u64.wrapping_sub(l).wrapping_add(d as u64);
+                    if f == 3 {
+                        g.op(vec![0, s, l]);
+                        g.pool.push(if G::fits(s, l) { Some((s, l)) } else { None });
+                    } else {
+                        g.new_region_via(f, s, l);
+                    }
+                }
+                g.emit(emit);
+                if l == 0 {
+                    continue;
+                }
+                for d in [-1i64, 0, 1, 2] {
+                    let s = 0u64.wrapping_sub(l).wrapping_add(d as u64);
+                    for lo in [0x1000u64, 0] {
+                        let mut g = G::new();
+                        let rs = [(lo, l), (s, l)];
+                        let fits = rs.iter().all(|(s, l)| G::fits(*s, *l));
+                        let mut v = vec![if f == 3 { 2u64 } else { 9 }];
+                        for (i, (s, l)) in rs.iter().enumerate() {
+                            v.push(*s);
+                            v.push(*l);
+                            if f != 3 {
+                                v.push((f + i as u64) % 3);
+                            }
+                        }
+                        g.op(v);
+                        for (s, l) in rs {
+                            g.pool.push(if fits { Some((s, l)) } else { None });
+                        }
+                        let ok = fits && g.valid(&[0, 1]);
+                        g.maps.push(if ok { Some(vec![0, 1]) } else { None });
+                        if ok {
+                            g.find(0, u64::MAX);
+                            g.find(0, u64::MAX - 1);
+                            g.find(0, s);
+                            g.find(0, 0);
+                        }
+                        g.emit(emit);
+                    }
+                }
+            }
+        }
         let mut g = G::new();
         for (s, l) in [(0u64, 4096u64), (4096, 4097), (1 << 32, 65536), (u64::MAX - 4096, 4096), (u64::MAX - 4095, 4096)] {
             g.new_region(s, l);
